@@ -299,6 +299,95 @@ pub fn run(tier: Tier) -> i32 {
             extra: vec![],
         });
     }
+    // every total: the line between kept, averaged and filled entries is drawn by comparing an index sum
+    // with half the total - one-axis and two-axis shapes for every total T in 1..=1200 (thorough 4000)
+    {
+        let t_max = tier.pick(1200usize, 4000usize);
+        let tshapes: Vec<Vec<usize>> = (1..=t_max).flat_map(|t| if t >= 2 { vec![vec![t + 1], vec![t / 3 + 1, t - t / 3 + 1]] } else { vec![vec![t + 1]] }).collect();
+        let res = par_each(&tshapes, |s| {
+            let x = RefArray::from_fn(s, |f, _| ((f * 7) % 1013 + 1) as f64);
+            let expect = x.fold(0.0);
+            match real_fold(&x, 0.0) {
+                Ok(got) if same_arr(&got, &expect) => None,
+                Ok(got) => {
+                    let at = got.data.iter().zip(&expect.data).position(|(a, b)| !same_f64(*a, *b));
+                    Some((format!("C05|lib|cells-wrong|every-total,{}axes", s.len()), format!("fold(fill=zero) of shape {s:?} (total {}): first wrong cell at flat position {at:?}", s.iter().map(|n| n - 1).sum::<usize>()), case_j(s, "lin", "zero")))
+                }
+                Err(p) => Some((format!("C05|lib|panic|{}", norm_msg(&p)), format!("fold of shape {s:?} panicked: {p}"), case_j(s, "lin", "zero"))),
+            }
+        });
+        for v in res.into_iter().flatten() {
+            rep.violation(v.0, v.1, v.2);
+        }
+        rep.part(Part {
+            name: "lib: every total".into(),
+            evaluations: tshapes.len() as u64,
+            nontrivial: tshapes.len() as u64,
+            note: format!("shapes [T+1] and [T/3+1, T-T/3+1] for every total T in 1..={t_max}: fill 0 against the multi-index definition"),
+            exhaustive: true,
+            extra: vec![],
+        });
+    }
+    // values that are not whole numbers, and infinite ones: the relations of the statement hold to the
+    // bit (both members of a diagonal pair get the same average, folding twice is folding once, the
+    // mirrored input folds to the same spectrum), the values within two units in the last place
+    {
+        let fshapes: Vec<Vec<usize>> = shapes(3, 1, 6, 40);
+        let res = par_each(&fshapes, |sh| {
+            let mut viols: Vec<Viol> = Vec::new();
+            for (vname, values) in [("tenths", [0.1f64, 0.7, 0.3, 1.1, 2.3, 0.9, 1e-3, 5.7]), ("with-inf", [0.1f64, f64::INFINITY, 0.3, 1.1, 2.3, 0.9, 1e-3, 5.7])] {
+                let x = RefArray::from_fn(sh, |f, _| values[(f * 3 + f / 5) % values.len()] * (1.0 + f as f64));
+                let mirrored = RefArray { shape: x.shape.clone(), data: x.data.iter().rev().cloned().collect() };
+                let expect = x.fold(0.0);
+                let r = catch(|| {
+                    let once = real_fold(&x, 0.0)?;
+                    let twice = real_fold(&once, 0.0)?;
+                    let of_mirror = real_fold(&mirrored, 0.0)?;
+                    Ok::<_, String>((once, twice, of_mirror))
+                });
+                let problem = match r {
+                    Ok(Ok((once, twice, of_mirror))) => {
+                        let n = once.data.len();
+                        let ulps = |a: f64, b: f64| (a.is_nan() && b.is_nan()) || a == b || (a - b).abs() <= 4.0 * f64::EPSILON * b.abs();
+                        if once.shape != expect.shape || !once.data.iter().zip(&expect.data).all(|(a, b)| ulps(*a, *b)) {
+                            Some(format!("fold gives {:?}, the definition {:?}", once.data, expect.data))
+                        } else if !same_arr(&twice, &once) {
+                            Some(format!("folding twice gives {:?}, folding once {:?}", twice.data, once.data))
+                        } else if !same_arr(&of_mirror, &once) {
+                            Some(format!("the mirrored input folds to {:?}, the input to {:?}", of_mirror.data, once.data))
+                        } else {
+                            // diagonal pairs: position i and its mirror n-1-i hold the same value when both are kept
+                            (0..n).find(|&i| {
+                                let s: usize = { let mut f = i; let mut acc = 0usize; for a in (0..sh.len()).rev() { acc += f % sh[a]; f /= sh[a]; } acc };
+                                let t: usize = sh.iter().map(|k| k - 1).sum();
+                                2 * s == t && !same_f64(once.data[i], once.data[n - 1 - i])
+                            })
+                            .map(|i| format!("the diagonal pair at flat positions {i} and {} holds {} and {}", n - 1 - i, once.data[i], once.data[n - 1 - i]))
+                        }
+                    }
+                    Ok(Err(e)) => Some(format!("panic: {e}")),
+                    Err(p) => Some(format!("panic: {p}")),
+                };
+                if let Some(why) = problem {
+                    if viols.len() < 2 {
+                        viols.push((format!("C05|lib|relations|{vname}|{}", shape_class(sh)), format!("shape {sh:?}, {vname} values: {why}"), J::obj([("kind", J::s("c05-relations")), ("shape", J::usizes(sh)), ("values", J::s(vname))])));
+                    }
+                }
+            }
+            viols
+        });
+        for v in res.into_iter().flatten() {
+            rep.violation(v.0, v.1, v.2);
+        }
+        rep.part(Part {
+            name: "lib: fractional and infinite values".into(),
+            evaluations: 2 * fshapes.len() as u64,
+            nontrivial: 2 * fshapes.len() as u64,
+            note: format!("{} shapes x {{multiples of tenths, the same with infinite entries}}: the fold within 4 ulp of the definition, idempotent, polarity-symmetric and equal on the two members of every diagonal pair, each to the bit", fshapes.len()),
+            exhaustive: true,
+            extra: vec![],
+        });
+    }
     // sparse spectra: every basis vector and every zero mirror pair (a fold that treats zeros
     // specially is not linear, so label spectra without zeros cannot see it)
     let sparse_shapes: Vec<Vec<usize>> = shapes(4, 1, 7, tier.pick(30, 52));
